@@ -286,6 +286,21 @@ pub fn run(run: &Run) {
             run.eval_one("history", &History { init: (ci % 2) as u8, steps }, &f);
         }
     }
+    if run.worker.0 == 2 % run.worker.1 {
+        // growing and shrinking families of siblings (2..24 and back), one history per parent
+        for (pi, parent) in ["", "app", "app::net"].into_iter().enumerate() {
+            let sizes: Vec<usize> = vec![2, 7, 8, 9, 10, 16, 17, 24, 9, 8, 3];
+            let steps = sizes
+                .iter()
+                .map(|n| {
+                    let (cfg, mut targets) = crate::gen::cfgtree::sibling_family(parent, *n);
+                    targets.truncate(14);
+                    Step { cfg, targets, via_root_mut: None }
+                })
+                .collect();
+            run.eval_one("history", &History { init: (pi % 2) as u8, steps }, &f);
+        }
+    }
     run.search("history", run.tier.pick(160, 4_000), strategy(), &f);
 }
 
@@ -305,7 +320,7 @@ pub fn replay(part: &str, case: serde_json::Value) -> Option<CaseResult> {
 pub fn meta() -> EvidenceMeta {
     EvidenceMeta {
         level: "exploration",
-        rule: "cases = histories of 1-8 cfgtree configurations whose most verbose level is steered per step (cap level and holder drawn: root / any logger incl. deep descendants), initialised through init_config, init_config_with_err_handler or init_raw_config (YAML + file appenders, single step) in a dedicated child process, then replaced with Handle::set_config; after every step: log::max_level() and Logger::max_log_level() equal the model's most verbose level, log::logger().enabled() equals the effective logger's threshold on a grid of 3-5 derived targets x 5 levels, and log! macro deliveries equal route() and come from the current configuration's appenders only. While set_config tears the outgoing configuration down, one of its appenders logs a record through the macros which the incoming configuration admits at its most verbose level: it must arrive as the incoming configuration prescribes. Four fixed histories over look-alike sibling names (published hash collisions, case, normalisation, trimming). non-trivial = a step whose maximum differs from the previous step's while the most verbose level is held by a non-root logger; distinct = FNV hash of the history".into(),
+        rule: "cases = histories of 1-8 cfgtree configurations whose most verbose level is steered per step (cap level and holder drawn: root / any logger incl. deep descendants), initialised through init_config, init_config_with_err_handler or init_raw_config (YAML + file appenders, single step) in a dedicated child process, then replaced with Handle::set_config; after every step: log::max_level() and Logger::max_log_level() equal the model's most verbose level, log::logger().enabled() equals the effective logger's threshold on a grid of 3-5 derived targets x 5 levels, and log! macro deliveries equal route() and come from the current configuration's appenders only. While set_config tears the outgoing configuration down, one of its appenders logs a record through the macros which the incoming configuration admits at its most verbose level: it must arrive as the incoming configuration prescribes. Three fixed histories over families of 2-24 sibling loggers growing and shrinking below the root, a logger and a nested logger. Four fixed histories over look-alike sibling names (published hash collisions, case, normalisation, trimming). non-trivial = a step whose maximum differs from the previous step's while the most verbose level is held by a non-root logger; distinct = FNV hash of the history".into(),
         assumptions: vec!["log facade compiled without static max-level features".into()],
         mutants_caught: vec![],
     }
